@@ -17,7 +17,10 @@ CHUNKS = [
     ['  nop', '  ldi r16, 1'], ['  .equ K%d = %d'], ['L%d: ret'], ['  .def T%d = r2%d', '  mov T%d, r1'], ['  .dw K_prev'],
     ['  .macro mm%d', '    inc r17', '  .endm'], ['  mm_prev'], ['  .define F%d'], ['  .ifdef F_prev', '  .db 1, 2', '  .else', '  .db 3, 4', '  .endif'],
     ['  .dseg', 'v%d: .byte 2', '  .cseg'], ['  .eseg', '  .db 9', '  .cseg'], ['  rjmp L_prev'],
+    ['  .org ORG'],
 ]
+# an origin that is always ahead of the code so far: every step of the counter adds at most 3 words
+def org_of(n): return 8 * n + 8
 
 class Gen:
     def __init__(self, rng, root):
@@ -49,6 +52,7 @@ class Gen:
                 if 'L_prev' in l:
                     if self.state['L'] is None: ok = False; break
                     l = l.replace('L_prev', self.state['L'])
+                if 'ORG' in l: l = l.replace('ORG', r.choice(['%d', '0x%x']) % org_of(self.n))
                 if '%d' in l:
                     l = l % tuple([self.n] + [self.n % 10] * (l.count('%d') - 1)) if l.count('%d') > 1 and 'r2%d' in l else l % ((self.n,) * l.count('%d'))
                 out.append(l)
@@ -90,7 +94,9 @@ class Gen:
                         name = os.path.basename(path)
                         self.reserved.add(cand)
                 if mode == 'same':
-                    target, written = os.path.join(d, name), name
+                    # the name as written may pass through a directory and back, or start at "."
+                    target, written = os.path.join(d, name), r.choice([name, name, name, 'inc/../' + name, './' + name, 'inc/./../' + name])
+                    if 'inc/' in written: self.dirs.add(os.path.join(d, 'inc'))
                 elif mode == 'caller':
                     target, written = os.path.join(r.choice(self.caller), name), name
                 elif mode == 'incpath_rel':
@@ -120,12 +126,29 @@ class Gen:
                     exited = True
                 elif not exited:
                     flat.append('  nop')
+        if depth > 0 and not exited and r.random() < .12:
+            # the file ends on an origin: what the includer emits next lands there
+            self.n += 1
+            c = ['  .org %d' % org_of(self.n)] + r.choice([[], [''], ['  ; end of file']])
+            lines += c; flat += c
         self.files[path] = lines
         return flat
 
 def build_case(rng, root, idx):
     g = Gen(rng, os.path.join(root, 'c%d' % idx))
     main = os.path.join(g.root, 'main', 'main.asm')
+    # how the caller spells the main file: in full; through a directory and back; through "."; or
+    # relative, not there from the working directory and found through a caller-supplied directory
+    k = rng.random()
+    g.spelled = main
+    if k < .12:
+        g.spelled = os.path.join(g.root, 'main', 'sub0', '..', 'main.asm'); g.dirs.add(os.path.join(g.root, 'main', 'sub0'))
+    elif k < .2:
+        g.spelled = os.path.join(g.root, 'main', '.', 'main.asm')
+    elif k < .3:
+        g.spelled = 'main.asm'; g.caller = g.caller + [os.path.join(g.root, 'main')]
+    elif k < .38:
+        g.spelled = 'main/main.asm'; g.caller = [g.root] + g.caller
     head = ['.device %s' % rng.choice(['ATmega8', 'ATmega328P'])] if rng.random() < .3 else []
     flat = g.make_file(main, 0, g.caller)
     g.files[main] = head + g.files[main]
@@ -145,7 +168,7 @@ def materialise(g):
     for p, lines in g.files.items():
         os.makedirs(os.path.dirname(p), exist_ok=True)
         with open(p, 'w') as f: f.write('\n'.join(lines) + '\n')
-    for d in g.caller:
+    for d in list(g.caller) + sorted(g.dirs):
         os.makedirs(d, exist_ok=True)
 
 def fs_prelude(g):
@@ -194,7 +217,7 @@ def run(tier, seed, model_ok):
         model_res = {}
         for i, (g, main, flat) in enumerate(cases):
             materialise(g)
-            trip_impl.append(('%df' % i, 'F', '%s %s' % (vlib.hx(main), ','.join(vlib.hx(d) for d in g.caller))))
+            trip_impl.append(('%df' % i, 'F', '%s %s' % (vlib.hx(g.spelled), ','.join(vlib.hx(d) for d in g.caller))))
             trip_impl.append(('%ds' % i, 'B', vlib.hx('\n'.join(flat))))
         for name, g, main, flat in special:
             materialise(g)
@@ -206,7 +229,7 @@ def run(tier, seed, model_ok):
             allc = [(str(i), g, main) for i, (g, main, flat) in enumerate(cases)] + [(nm, g, main) for nm, g, main, _ in special]
             for key, g, main in allc:
                 lines += fs_prelude(g)
-                lines.append('%sf F %s %s' % (key, vlib.hx(main), ','.join(vlib.hx(d) for d in g.caller)))
+                lines.append('%sf F %s %s' % (key, vlib.hx(getattr(g, 'spelled', main)), ','.join(vlib.hx(d) for d in g.caller)))
             mres, rc, err = vlib.run_lines(vlib.DRIVER, lines, mode=None)
             for key, g, main in allc:
                 k = '%sf' % key
@@ -244,7 +267,10 @@ def run(tier, seed, model_ok):
         'rule': 'seeded random splits of a program (instructions, .equ, labels, .def, macro definitions and calls, .define/.ifdef, segment switches, optional .device) into a tree of files: includes by bare name from the includer\'s directory, a caller-supplied directory, a directory added by a relative or absolute .includepath just before; by sub-directory path; by absolute path; nesting up to 4, .exit in included files; each tree is written to a scratch directory and built with build_file, its flattened text with build_str; plus a missing-file case, the tree of the repaired .includepath defect and the exact trees of the recorded finding (constructs open across the boundary); distinct = distinct trees',
         'samples': [{os.path.relpath(p, cases[0][0].root): l for p, l in cases[0][0].files.items()}],
         'exhaustive': False,
-        'distribution': {'trees': len(cases), 'trees_with_a_name_in_two_searched_directories(impl vs model only)': sum(1 for g, _, _ in cases if g.dup), 'flattened_programs_that_build': okc, 'files_per_tree': sorted(depth.items())},
+        'distribution': {'trees': len(cases), 'trees_with_a_name_in_two_searched_directories(impl vs model only)': sum(1 for g, _, _ in cases if g.dup), 'flattened_programs_that_build': okc,
+                         'main_file_spelling': dict(Counter('absolute' if g.spelled == main else 'relative, found through a caller directory' if not g.spelled.startswith('/') else 'through .. or .' for g, main, _ in cases)),
+                         'included_files_ending_on_an_origin': sum(1 for g, main, _ in cases for p, l in g.files.items() if p != main and any(x.strip().startswith('.org') for x in l[-2:])),
+                         'include_names_through_dot_components': sum(1 for g, _, _ in cases for l in g.files.values() for x in l if x.startswith('.include "') and ('/../' in x or '"./' in x)), 'files_per_tree': sorted(depth.items())},
         'disagreements': dis[:30], 'violations': vio,
     }
 
